@@ -1018,7 +1018,11 @@ theorem fk_stepCreated {p : Pool} (h : FK M p) (t : Nat) (tk : PTask) : FK M (p.
     split
     · exact fk_afterWorker h0 _ _
     · exact fk_afterWorker h0 _ _
-    · exact fk_suspendTask h0 _ _
+    · exact fk_suspendTask (fk_modTask h0 _ _) _ _
+
+theorem fk_workerNext {p : Pool} (h : FK M p) (t : Nat) : FK M (p.workerNext t) := by
+  unfold workerNext
+  exact fk_suspendTask (fk_modTask (fk_logEv h _) _ _) _ _
 
 theorem fk_workerCancelled {p : Pool} (h : FK M p) (t : Nat) (tk : PTask) : FK M (p.workerCancelled t tk) := by
   unfold workerCancelled
@@ -1036,7 +1040,9 @@ theorem fk_stepInWorker {p : Pool} (h : FK M p) (t : Nat) (tk : PTask) : FK M (p
   split
   · exact fk_workerCancelled (fk_modTask h _ _) t tk
   · split
-    · exact fk_afterWorker h _ _
+    · split
+      · exact fk_workerNext h t
+      · exact fk_afterWorker h _ _
     · exact fk_afterWorker h _ _
     · exact h
 
